@@ -1099,26 +1099,17 @@ def classify_idem(text: str, out: str, out2: str, cfg: T.Dict[str, T.Any], cfgdi
             return f2.format(o1, P) == o1
         except Exception:
             return False
-    if 'files-array' in region_features(out, out2):
-        # a files([...]) call is still to be flattened in the statements that differ (one level per pass)
-        return ['idempotence:files-array']
     active = [o for o in CAUSE_OPTIONS if cfg[o] != (DEFAULT_CFG[o] if o != 'simplify_string_literals' else False)]
     for k in range(1, len(active) + 1):
         for opts in itertools.combinations(active, k):
             if idem_without(list(opts)):
                 return ['idempotence:' + o for o in opts]
-    rf = region_features(out, out2)
-    for c in ('files-array', 'multiline-paren'):
-        if c in rf:
-            return ['idempotence:' + c]
+    if 'multiline-paren' in region_features(out, out2):
+        return ['idempotence:multiline-paren']
     if re.search(r'\\[ \t]*(#.*)?\n([ \t]*(#.*)?\n)*[ \t]*(#.*)?$', out):
         return ['idempotence:trailing-continuation']
     if re.search(r'[\[({][ \t]*\\[ \t]*(#.*)?\n', out):
         return ['idempotence:continuation-after-bracket']
-    if 'files-array' in feats:
-        # the first pass replaced files([...]) by its elements (one level per pass); the second pass formats
-        # the flattened call differently
-        return ['idempotence:files-array']
     try:
         if sig_tokens(out) != sig_tokens(out2):
             what = 'tokens'
@@ -1346,7 +1337,7 @@ TARGETED: T.List[T.Tuple[str, T.Dict[str, T.Any]]] = [
     ("x = f'''\\x40a\\x40'''\n", {}),                              # becomes a substituting f-string
     ("x = '''a\\nb'''\n", {'simplify_string_literals': False}),
     ("files(['b', 'a'])\n", {'sort_files': True}),                  # idempotence:sort_files
-    ("files([['a']])\n", {}),                                       # idempotence:files-array
+    ("files([['a']])\n", {}),                                       # was idempotence:files-array (fixed 7ce7cd4)
     ("files(['a'] # about a\n)\n", {}),                             # comments:lost-on-files-flatten
     ("files('b' # c1\n, 'a' # c2\n)\n", {'sort_files': True}),      # comments:reordered-by-sort-files
     ("f('a',)\n", {'no_single_comma_function': True}),              # idempotence:no_single_comma_function
@@ -1434,7 +1425,8 @@ def decision_cases(rng: random.Random, n: int) -> T.Tuple[T.List[T.Tuple[str, bo
                       for _ in range(rng.randint(0, 7))])
     flats = ["files(['a', 'b'])", "files([ 'a' ])", "files([ # c\n 'a'])", "files(['a'], 'b')", "files(['a'], k: 1)", "files()", "files([])",
              "files([['a']])", "files(['a', k: 1])", "filez(['a'])", "files( # c\n['a'])", "files(['a'] # c\n)", "files(x)", "files([\n'a'])",
-             "files(['a',],)", "files([\\\n 'a'])"]
+             "files(['a',],)", "files([\\\n 'a'])", "files([[['a']]])", "files([['a'] # c\n])", "files(['a'], # c\n)", "files(['a'] \\\n)",
+             "files([['a'], 'b'])", "files([['a', k: 1]])", "files(['a'],\n)"]
     for _ in range(n // 8):
         toks = g.call(1)
         if toks[0] == 'files':
@@ -1493,18 +1485,23 @@ def check_decisions(ctx: Ctx) -> None:
         # the decision is taken before any whitespace is moved: evaluate the coded condition's effect
         tree2 = parse(text)
         n2 = tree2.lines[0]
-        arr = n2.args.arguments[0] if len(n2.args.arguments) == 1 else None
+        chain = [n2.args]   # the argument-list nodes files([[..]]) can be reduced to, outermost first
+        while len(chain[-1].arguments) == 1 and type(chain[-1].arguments[0]).__name__ == 'ArrayNode':
+            chain.append(chain[-1].arguments[0].args)
         try:
             tree2.accept(__import__('mesonbuild.ast.postprocess', fromlist=['AstConditionLevel']).AstConditionLevel())
             tw.visit_FunctionNode(n2)
         except Exception as e:
             ctx.notes.append(f'flat: TrimWhitespaces raised {type(e).__name__} on {text!r}')
             continue
-        flattened = arr is not None and type(arr).__name__ == 'ArrayNode' and n2.args is arr.args
+        levels = [i for i, a in enumerate(chain) if a is n2.args]
+        if not levels:
+            ctx.notes.append(f'flat: unexpected argument list after visit_FunctionNode on {text!r}')
+            continue
         lines.append(line)
-        expect.append(str(int(flattened)))
+        expect.append(str(levels[0]))    # number of array levels removed
         inputs.append(('flat', text))
-        ctx.tag('decision:flatten:' + str(int(flattened)))
+        ctx.tag('decision:flatten:' + str(levels[0]))
     if not ctx.model_available:
         return
     ans = ctx.driver('fmt', lines)
@@ -1684,11 +1681,9 @@ def process(ctx: Ctx, results: T.List[T.Dict[str, T.Any]], cfgs: T.List[T.Dict[s
     ctx.extra['disagreements_checked'] = checked
     ctx.extra['pairs_validated_by_lean_checker'] = checked
     tables = ctx.driver('fmt', ['tables'])[0] if ctx.model_available else ''
-    if tables.endswith(';1'):
-        ctx.notes.append('backslash is in the excluded list of the live code: simplify_preserves_denotation applies in full')
-    else:
-        ctx.notes.append('backslash is NOT in the excluded list of the live code: only simplify_preserves_denotation_partial '
-                         'applies (finding simplify:multiline-backslash)')
+    if tables and not tables.endswith(';1'):
+        ctx.notes.append('backslash is NOT in the excluded list of the live code: theorem live_excluded_has_backslash fails '
+                         '(F-FMT-BACKSLASH is back)')
 
 
 # --------------------------------------------------------------------------------------------- search / replay
@@ -1757,9 +1752,16 @@ def replay(ctx: Ctx, rep: dict) -> None:
             print('input :', repr(case['text']))
             print('config:', nondefault(cfg))
             print('output:', repr(r.get('out')))
-            for key, what in r['viol']:
+            viol = list(r['viol'])
+            if r['status'] == 'ok':
+                viol += check_cli(case['text'], cfgdir, 0, r['out'], cfg['end_of_line'])
+            if case.get('repo') and case['repo'] != common.REPO:
+                print(f'note: recorded against {case["repo"]}, replaying against {common.REPO}')
+            for key, what in viol:
                 print('oracle:', key, what)
                 ctx.violation(key, what, case)
+            if not viol:
+                print('oracle: no violation on this tree')
             if 'ser_in' in r and ctx.model_available:
                 print('lean  :', ctx.driver('fmt', [f'check {int(bool(cfg["sort_files"]))}|{r["ser_in"]}|{r["ser_out"]}']))
         else:
